@@ -28,6 +28,7 @@ class get_threshold:
 
 from specs.stv import *
 from specs.transfers import *
+from specs.editing import *
 
 STV_FIELDS = dict(m=Int, threshold=Int, simultaneous=Bool, tiebreak=Opt(Str), transfer=Fn, quota=Str, _profile=Profile,
                   election_states=Seq(StateRef, "list"), score_function=Fn, sort_high_low=Bool)
@@ -58,16 +59,6 @@ class single_step:
     def ensures(self, profile, prev_state, result):
         return (result[0] == one_elected(profile, prev_state, self.tiebreak)
                 and result[2] == one_profile(profile, prev_state, self.threshold, self.transfer, self.tiebreak))
-
-
-@contract("utils.py", "remove_cand", props=(), assumed=True, when=("Str", "Profile"))
-class remove_cand_str_profile:
-    params = dict(removed=Str, profile_or_ballots=Profile, condense=Bool, leave_zero_weight_ballots=Bool)
-    returns = Profile
-    trusted = ("assumed contract: remove_cand(candidate, profile) (result named by the opaque spec function `removed`; audited by bounded/C12)",)
-
-    def result(removed, profile_or_ballots):
-        return removed_profile(profile_or_ballots, removed)
 
 
 @contract("utils.py", "first_place_votes", props=(), assumed=True)
@@ -103,9 +94,12 @@ class stv_run_step:
     tallies of the returned profile and the tally order; without it nothing is stored."""
     params = dict(self=Obj("STV", STV_FIELDS), profile=Profile, prev_state=StateRef, store_states=Bool)
     returns = Profile
+    forall = dict(k=Seq(CSet))
 
     def requires(self, profile, prev_state, store_states):
         return (self.score_function is first_place_votes and len(self.election_states) >= 1
+                and all_nonneg(profile.ballots, len(profile.ballots))
+                and distinct(profile.candidates, len(profile.candidates))
                 and 0 <= prev_state.round_number and prev_state.round_number < len(self.election_states)
                 and len(prev_state.remaining) >= 1
                 and implies(not (len([c for c in prev_state.scores if prev_state.scores[c] >= self.threshold]) > 0)
@@ -118,7 +112,7 @@ class stv_run_step:
         return (len([c for c in prev_state.scores if prev_state.scores[c] >= self.threshold]) > 0 and not self.simultaneous
                 and len(prev_state.remaining[0]) > 1 and self.tiebreak is None)
 
-    def ensures(self, old_self, profile, prev_state, store_states, result):
+    def ensures(self, old_self, profile, prev_state, store_states, result, k):
         return (implies(not store_states, self.election_states == old_self.election_states)
                 and implies(store_states, len(self.election_states) == len(old_self.election_states) + 1
                             and self.election_states[:len(old_self.election_states)] == old_self.election_states
@@ -155,6 +149,13 @@ class stv_run_step:
                                     and len(self.election_states[-1].eliminated) == 1
                                     and len(self.election_states[-1].eliminated[0]) == 1
                                     and self.election_states[-1].eliminated[0] <= prev_state.remaining[-1]
+                                    # its ballots move on at full weight: the returned profile is remove_cand's result for that candidate
+                                    and implies(len(keep_cands(profile.candidates, len(profile.candidates), [the(self.election_states[-1].eliminated[0])])) > 0,
+                                                result.candidates == keep_cands(profile.candidates, len(profile.candidates),
+                                                                                [the(self.election_states[-1].eliminated[0])]))
+                                    and wrank(result.ballots, len(result.ballots), k)
+                                    == wrank(rc_prefix(profile.ballots, len(profile.ballots), [the(self.election_states[-1].eliminated[0])]),
+                                             len(profile.ballots), k)
                                     and implies(len(prev_state.remaining[-1]) > 1,
                                                 bool(self.election_states[-1].tiebreaks)
                                                 and self.election_states[-1].tiebreaks == {prev_state.remaining[-1]: tb_value(self.election_states[-1])}
@@ -165,3 +166,6 @@ class stv_run_step:
 
     def hint_return(self, prev_state):
         return cat_elected_take(self.election_states, prev_state.round_number + 1, prev_state.round_number + 1)
+
+    def hint_raise_ValueError(profile, eliminated_cand):
+        return keep_cands_distinct(profile.candidates, len(profile.candidates), [eliminated_cand])
